@@ -584,6 +584,24 @@ def run_early_closure(params, known):
             viol('exception-escaped-callback', '%s: %s' % (w.escaped[-1][0], w.escaped[-1][2]), case)
         elif hname in ('bad-magic', 'version-3', 'version-255') and not w.r_closed():
             viol('bad-contact-header-not-refused', 'socket still open', case)
+    # the negotiation stalls: the peer sends its header, then session messages that are out of place before SESS_INIT, then
+    # nothing - while the endpoint is configured with an idle time; the timers run on (a few clock advances)
+    early = {'nothing': b'', 'keepalive': T.enc_keepalive(), 'segment': T.enc_segment(3, 1, b'zz', [T.ext_total_length(2)]), 'sess-term': T.enc_sess_term(0, 0),
+             'ack': T.enc_ack(1, 1, 2)}
+    for (role, ename, idle) in itertools.product(('active', 'passive'), sorted(early), (3, 30)):
+        count += 1
+        case = dict(role=role, peer_says_before_sess_init=ename, then='silence', idle_time=idle)
+        w = PeerWorld(dict(role=role, keepalive=2, idle=idle, seg_mru=64, tx_init=64))
+        w.peer_write(T.enc_contact(0) + early[ename])
+        w.quiesce()
+        for _ in range(6):
+            if w.r_closed() or w.next_deadline() is None:
+                break
+            w.apply(('tick',))
+            w.quiesce()
+        keys.add('stalled/%s/%s/%d' % (role, ename, idle))
+        if w.escaped:
+            viol('exception-escaped-callback', '%s: %s' % (w.escaped[-1][0], w.escaped[-1][2]), case)
     strays = {'segment-without-start': T.enc_segment(1, 9, b'zz'), 'ack-of-nothing': T.enc_ack(1, 9, 5), 'second-sess-init': T.enc_sess_init(0, 64, 1000, b'dtn://p/'),
               'unknown-type': b'\x99\x00', 'sess-term': T.enc_sess_term(0, 0)}
     for (role, sname, chunk) in itertools.product(('active', 'passive'), sorted(strays), (10240, 3)):
